@@ -22,6 +22,10 @@ def run(rep):
     rep.guard(c11.i4, rep, w)    # the text of a number is an interned string: a look-up that takes equal hash for equal text hands `String.from(b)` the text of another number
     import c05
     rep.guard(c05.e5, rep, w)    # an interpolated number is rendered by FormatString from the value the expression produced (not from the literal's text at compile time)
+    import c04
+    rep.guard(c04.b14, rep, w)   # the number a literal denotes is the constant made from *its* text for *this* chunk (no remembered slot of another function's table)
+    import c12
+    rep.guard(c12.h3, rep, w)    # numbers are looked up in constant tables and maps by hash and value: the hash is taken from the canonical bit pattern of the f64, not from a narrower integer
 
 
 def arm_blocks(f, variant):
